@@ -269,7 +269,7 @@ Definition truth (c : cfg) (s : st) (name : str) (ns : option str) (g : N) : obs
 
 Lemma uncached_is_truth c s name ns g a via :
   fail_next s = false ->
-  fst (uncached_step c s (Load name ns g a via)) = truth c s name ns (if via then 0%N else g).
+  fst (uncached_step c s (Load name ns g a via)) = truth c s name ns g.
 Proof.
   intro Hf. simpl. unfold uncached_load, truth. rewrite Hf.
   destruct (assoc _ _) as [[? ?]|]; reflexivity.
@@ -395,7 +395,7 @@ Proof.
     destruct o as [name ns g0 a via|k content|k|]; simpl in Hin;
       try (apply (Hold t Hin eq_refl)).
     (* Load *)
-    set (g := if via then 0%N else g0) in *.
+    set (g := g0) in *.
     set (rb := negb via) in *.
     unfold cached_load in Hin.
     assert (Hnew : forall t' fn, uncached_load c s name ns g a = (Some t', fn) ->
@@ -447,7 +447,7 @@ Theorem caching_transparent c ops name ns g0 a via :
   let ob := fst (step c s (Load name ns g0 a via)) in
   (* a template loaded from inside a render is rendered in the including
      template's context: its own globals are not observed *)
-  let g := if via then 0%N else g0 in
+  let g := g0 in
   (* what the non-caching loader gives at this moment *)
   ob = truth c s name ns g
   (* or nothing, if the source is failing during this step *)
